@@ -1,4 +1,4 @@
-#!/usr/bin/env python3
+#!/usr/bin/env -S python3 -u
 """Run the registered checks against seeded breaking changes.
 
 usage: seeded.py [--in-repo] [--tier quick|thorough] [seed-dir ...]   (default: every /verif/seeded/*/)
